@@ -88,6 +88,23 @@ T = [
      "        let fail_fast = cli.fail_fast || fail_fast;", "        let fail_fast = cli.fail_fast && fail_fast;"),
     ("c08_finished_before_leftovers", "C08/R4", B,
      "    executor.send_all_events(storage.finish_all_rules_and_features());\n\n    executor.send_event(event::Cucumber::Finished);", "    executor.send_event(event::Cucumber::Finished);\n\n    executor.send_all_events(storage.finish_all_rules_and_features());"),
+    # ---- C03
+    ("c03_retried_counts_for_feature", "C03/R3", B,
+     "        is_retried: bool,\n    ) -> Option<event::Cucumber<W>> {\n        if is_retried {\n            return None;\n        }\n\n        let finished_scenarios = self\n            .features_scenarios_count",
+     "        is_retried: bool,\n    ) -> Option<event::Cucumber<W>> {\n        let _ = is_retried;\n\n        let finished_scenarios = self\n            .features_scenarios_count"),
+    ("c03_parsing_finished_swapped_fields", "C03/R4", B,
+     "                rules += f.rules.len();\n                scenarios += f.count_scenarios();", "                scenarios += f.rules.len();\n                rules += f.count_scenarios();"),
+    ("c03_parsing_finished_in_loop", "C03/R4", B,
+     "            Err(e) => {\n                parser_errors += 1;\n", "            Err(e) => {\n                parser_errors += 1;\n                drop(sender.unbounded_send(Ok(Event::new(\n                    event::Cucumber::ParsingFinished {\n                        features,\n                        rules,\n                        scenarios,\n                        steps,\n                        parser_errors,\n                    },\n                ))));\n"),
+    ("c03_feature_closed_before_rule", "C03/R3", B,
+     "            if let Some(rule) = rule {\n                if let Some(f) =\n                    storage.rule_scenario_finished(feat.clone(), rule, retried)\n                {\n                    executor.send_event(f);\n                }\n            }\n            if let Some(f) = storage.feature_scenario_finished(feat, retried) {\n                executor.send_event(f);\n            }",
+     "            if let Some(f) =\n                storage.feature_scenario_finished(feat.clone(), retried)\n            {\n                executor.send_event(f);\n            }\n            if let Some(rule) = rule {\n                if let Some(f) =\n                    storage.rule_scenario_finished(feat, rule, retried)\n                {\n                    executor.send_event(f);\n                }\n            }"),
+    ("c03_feature_started_every_batch", "C03/R3", B,
+     "        for feature in runnable.iter().map(|(_, f, ..)| f.clone()).dedup() {\n            _ = self\n                .features_scenarios_count\n                .entry(feature.clone())\n                .or_insert_with(|| {\n                    started_features.push(feature);\n                    0\n                });\n        }",
+     "        for feature in runnable.iter().map(|(_, f, ..)| f.clone()).dedup() {\n            _ = self\n                .features_scenarios_count\n                .entry(feature.clone())\n                .or_insert(0);\n            started_features.push(feature);\n        }"),
+    ("c03_finish_flag_before_summary", "C03/R4", B,
+     "    drop(sender.unbounded_send(Ok(Event::new(\n        event::Cucumber::ParsingFinished {\n            features,\n            rules,\n            scenarios,\n            steps,\n            parser_errors,\n        },\n    ))));\n\n    into.finish();",
+     "    into.finish();\n\n    drop(sender.unbounded_send(Ok(Event::new(\n        event::Cucumber::ParsingFinished {\n            features,\n            rules,\n            scenarios,\n            steps,\n            parser_errors,\n        },\n    ))));"),
     # ---- C10
     ("c10_world_new_outside_catch", "C10/R1", B,
      "                match AssertUnwindSafe(async { W::new().await })\n                    .catch_unwind()\n                    .then_yield()\n                    .await\n                {\n                    Ok(Ok(w)) => w,",
